@@ -788,7 +788,7 @@ def dag_merge_history(rng, hid):
     if rng.chance(1, 3):
         ops += ["ADD r 4", "BIND r 3 4 %s" % labs[0]]
     ops += ["MERGE g r 0 0", "KEYS g", "KIDS g 0"]
-    return History(hid, 16, ops, {"dag": True})
+    return History(hid, 16, ops, {"dag": True, "outside_contract": True})
 
 
 class MergeProp(Prop):
@@ -816,13 +816,16 @@ class C12(MergeProp):
         hs += [dag_merge_history(rng.fork(), "c12-dag%d" % i) for i in range(40 if tier == "quick" else 2000)]
         # merges that call join() (right graph not a tree, the two paths end on different left vertices) and calls on
         # the vacant slot it leaves: correspondence with the extended model (XJoin.v) only, no claim of the property
-        hs += gen_join.crafted_histories("c12-jx")
-        hs += [gen_join.join_history(rng.fork(), "c12-join%d" % i) for i in range(400 if tier == "quick" else 20000)]
+        jx = gen_join.crafted_histories("c12-jx")
+        jx += [gen_join.join_history(rng.fork(), "c12-join%d" % i) for i in range(400 if tier == "quick" else 20000)]
+        for h in jx:
+            h.meta["outside_contract"] = True
+        hs += jx
         return hs
 
     def oracle(self, h, il):
-        if h.meta.get("dag"):
-            return None       # not a tree: no claim, the correspondence alone is checked
+        if h.meta.get("dag") or h.meta.get("outside_contract"):
+            return None       # not a tree: no claim of this property
         for i, t, res, g0, g1, r0, r1 in self.walk_merge(h, il):
             if r0 is None or res == "PANIC":
                 continue
